@@ -34,6 +34,11 @@ func Sleep(d time.Duration) {
 // After returns a timer channel: under the scheduler it fires only when the
 // explorer decides so (early = one deviation, at quiescence for free).
 func After(d time.Duration) *vsched.Chan[time.Time] {
+	if vsched.Mode() == vsched.ModeFree {
+		c := vsched.MakeChan[time.Time](1)
+		time.AfterFunc(d, func() { c.Send(time.Now()) })
+		return c
+	}
 	return vsched.NewTimerChan[time.Time](Now().Add(d))
 }
 
